@@ -39,7 +39,7 @@ LEVEL_NOTE = "Trusted: LabelMapper's structure (decided by C05), Model right-han
 def budget(tier: str) -> dict:
     if tier == "quick":
         return {"examples": 800}
-    return {"examples": 1500, "shards": 16}
+    return {"examples": 1500, "shards": 16, "fuzz_seconds": 45}
 
 
 @st.composite
